@@ -82,10 +82,14 @@ class Ctx(object):
     def evaluate(self, runner, spec_for_journal, count=True):
         """runner() -> Result.  Returns (unknown_failures, result or None)."""
         st = self.stats
-        if self.journal_path and spec_for_journal is not None:
+        if self.journal_path:
+            # written before every evaluation: crash diagnosis, and the
+            # parent's watchdog reads its mtime as "start of the current case"
+            # (interactive modules have no spec yet: 'null')
             try:
                 with open(self.journal_path, 'w') as fo:
-                    fo.write(canon(spec_for_journal))
+                    fo.write(canon(spec_for_journal)
+                             if spec_for_journal is not None else 'null')
             except Exception:
                 pass
         from . import libstate
